@@ -18,9 +18,183 @@
 -/
 import Driver.Common
 import Driver.PacketIO
+import Rtp.Pred.C02
 import Rtp.Pred.C03
 namespace Rtp.Kinds.CoreC
 open Rtp Rtp.Proto Rtp.Model Rtp.Spec.Wire
+open Rtp.Pred.C02 (canonV)
+
+/-! ### relaxed predicates
+
+  What the driver evaluates on the real code.  `Pred.C03.wire / mutOK / view` (the predicates the
+  theorems of Props/C03.lean are about) demand a few things the text of C03 does not say; the
+  variants below drop exactly those demands, and `…_relax` shows that each is implied by the
+  predicate it replaces (so the theorems still say that the model satisfies what is evaluated here).
+
+  * nil vs empty: the text is silent on whether `GetExtension` / a view's `Get` hands out nil or an
+    empty slice for a present zero-length value; `none` and `some []` are identified (`canonV`), in
+    the observation, in the model's observation and in the expectation.
+  * sentence (2): "Marshal EITHER reports invalid padding (P bit with zero count) OR yields bytes
+    that decode to an equal packet" — with P = 1 and count 0 both outcomes are allowed.
+  * raw view: `Get(0)` may hand out the whole block (what RawExtension does) or the block's words
+    without the 4-byte header (what Header.GetExtension(0) returns).
+  * sentence (3) says nothing about the number `Unmarshal` of a view returns, about MarshalTo into a
+    destination that is too short, or about destination bytes beyond the written ones: of MarshalTo
+    only n and the written prefix are compared, on sufficient destinations.
+-/
+namespace Relax
+open Rtp.Pred.C03
+
+def canonObs (o : Obs) : Obs := { o with gets := o.gets.map canonV }
+
+def canonViewObs (o : ViewObs) : ViewObs := { o with gets := o.gets.map fun g => g.map canonV }
+
+def hdrGetsOKR (ext : Option ExtBlock) : List UInt8 → List (Option Bytes) → Bool
+  | [], [] => true
+  | q :: qs, g :: gs =>
+    (match expectHdrGet ext q with | some v => canonV g == canonV v | none => true) && hdrGetsOKR ext qs gs
+  | _, _ => false
+
+def accessorsOKR (w : Wire) (qs : List UInt8) (o : Obs) : Bool :=
+  o.ids == (match w.ext with | some b => b.ids | none => []) && hdrGetsOKR w.ext qs o.gets
+
+/-- sentence (2), first half: with P = 1 and count 0 Marshal may report invalid padding; in every
+    case bytes that decode to an equal packet are fine -/
+def remarshalOKR (o : Obs) : Bool :=
+  match o.un with
+  | .ok p =>
+    (p.header.padding && p.paddingSize == 0 && o.re == .err .invalidPadding) ||
+    (match o.re with
+      | .ok _ => o.reUn == .ok p
+      | _ => false)
+  | _ => true
+
+def wireR (w : Wire) (buf : Bytes) (qs : List UInt8) (o : Obs) : Bool :=
+  (!w.WF || (acceptsOK w o && accessorsOKR w qs o)) && remarshalOKR o && (!w.canonical || canonOK buf o)
+
+def mutOKR (buf : Bytes) (qs : List UInt8) (o : Obs) : Bool :=
+  match Wire.describe buf with
+  | some w => wireR w buf qs o
+  | none => remarshalOKR o
+
+/-- one `Get` of a view: the expected value up to nil/empty; the raw view may also hand out the
+    block's words without the header -/
+def getOKR (k : ViewKind) (b : ExtBlock) (bytes : Bytes) (q : UInt8) (g : Res (Option Bytes)) : Bool :=
+  match expectGet k b bytes q with
+  | some v =>
+    (match g with
+      | .ok x =>
+        canonV x == canonV v ||
+        (match k with
+          | .raw => b.ids.contains q && canonV x == canonV (b.lookup q)
+          | _ => false)
+      | _ => false)
+  | none => true
+
+def getsOKR (k : ViewKind) (b : ExtBlock) (bytes : Bytes) : List UInt8 → List (Res (Option Bytes)) → Bool
+  | [], [] => true
+  | q :: qs, g :: gs => getOKR k b bytes q g && getsOKR k b bytes qs gs
+  | _, _ => false
+
+/-- MarshalTo into a sufficient destination: n and the written prefix -/
+def toSuffOK (bytes : Bytes) : Res (Bytes × Nat) → Bool
+  | .ok (dst, n) => n == bytes.length && dst.take n == bytes
+  | _ => false
+
+/-- destinations of size−1, size, size+1 bytes: nothing is demanded of the first -/
+def toOKR (bytes : Bytes) : List (Res (Bytes × Nat)) → Bool
+  | [_, a, b] => toSuffOK bytes a && toSuffOK bytes b
+  | _ => false
+
+def viewOKR (k : ViewKind) (b : ExtBlock) (bytes : Bytes) (queries : List UInt8) (o : ViewObs) : Bool :=
+  (match o.unm with | .ok _ => true | _ => false) &&
+  o.ids == .ok b.ids &&
+  getsOKR k b bytes queries o.gets &&
+  o.marshal == .ok bytes &&
+  o.size == .ok bytes.length &&
+  toOKR bytes o.to
+
+def viewR (i : ViewIn) (o : ViewObs) : Bool :=
+  match i.desc with
+  | some b => !(formMatches i.kind b && b.WF) || viewOKR i.kind b i.bytes i.queries o
+  | none => true
+
+/-! the predicates of Pred/C03.lean imply the relaxed ones -/
+
+theorem hdrGetsOK_relax (ext : Option ExtBlock) (qs : List UInt8) (gs : List (Option Bytes)) :
+    hdrGetsOK ext qs gs = true → hdrGetsOKR ext qs gs = true := by
+  induction qs generalizing gs with
+  | nil => cases gs <;> simp [hdrGetsOK, hdrGetsOKR]
+  | cons q qs ih =>
+    cases gs with
+    | nil => simp [hdrGetsOK]
+    | cons g gs =>
+      simp only [hdrGetsOK, hdrGetsOKR, Bool.and_eq_true]
+      intro ⟨h1, h2⟩
+      refine ⟨?_, ih gs h2⟩
+      cases he : expectHdrGet ext q with
+      | none => rfl
+      | some v => rw [he] at h1; simp at h1; simp [h1]
+
+theorem remarshalOK_relax (o : Obs) : remarshalOK o = true → remarshalOKR o = true := by
+  unfold remarshalOK remarshalOKR
+  cases o.un with
+  | ok p =>
+    simp only
+    split
+    · rename_i hc; intro h; simp [hc, h]
+    · intro h; simp only [Bool.or_eq_true]; exact .inr h
+  | err e => simp
+  | panic => simp
+
+theorem wire_relax (w : Wire) (buf : Bytes) (qs : List UInt8) (o : Obs) :
+    wire w buf qs o = true → wireR w buf qs o = true := by
+  unfold wire wireR accessorsOK accessorsOKR
+  simp only [Bool.and_eq_true, Bool.or_eq_true]
+  rintro ⟨⟨h1, h2⟩, h3⟩
+  refine ⟨⟨?_, remarshalOK_relax o h2⟩, h3⟩
+  rcases h1 with h1 | ⟨ha, hi, hg⟩
+  · exact .inl h1
+  · exact .inr ⟨ha, hi, hdrGetsOK_relax _ _ _ hg⟩
+
+theorem mutOK_relax (buf : Bytes) (qs : List UInt8) (o : Obs) :
+    mutOK buf qs o = true → mutOKR buf qs o = true := by
+  unfold mutOK mutOKR
+  cases Wire.describe buf with
+  | some w => exact wire_relax w buf qs o
+  | none => exact remarshalOK_relax o
+
+theorem getsOK_relax (k : ViewKind) (b : ExtBlock) (bytes : Bytes) (qs : List UInt8)
+    (gs : List (Res (Option Bytes))) : getsOK k b bytes qs gs = true → getsOKR k b bytes qs gs = true := by
+  induction qs generalizing gs with
+  | nil => cases gs <;> simp [getsOK, getsOKR]
+  | cons q qs ih =>
+    cases gs with
+    | nil => simp [getsOK]
+    | cons g gs =>
+      simp only [getsOK, getsOKR, Bool.and_eq_true]
+      intro ⟨h1, h2⟩
+      refine ⟨?_, ih gs h2⟩
+      unfold getOKR
+      cases he : expectGet k b bytes q with
+      | none => rfl
+      | some v => rw [he] at h1; simp at h1; simp [h1]
+
+theorem view_relax (i : ViewIn) (o : ViewObs) : view i o = true → viewR i o = true := by
+  unfold view viewR
+  cases i.desc with
+  | none => simp
+  | some b =>
+    simp only [Bool.or_eq_true]
+    rintro (h | h)
+    · exact .inl h
+    · refine .inr ?_
+      unfold viewOK at h
+      simp only [Bool.and_eq_true, beq_iff_eq] at h
+      obtain ⟨⟨⟨⟨⟨h1, h2⟩, h3⟩, h4⟩, h5⟩, h6⟩ := h
+      simp [viewOKR, h1, h2, h4, h5, h6, getsOK_relax _ _ _ _ _ h3, toOKR, toSuffOK]
+
+end Relax
 
 def rdItem : Rd Item := do
   let t ← Rd.tok
@@ -57,7 +231,7 @@ def rdObs : Rd Pred.C03.Obs := do
   let re ← rdBytesRes
   let ru ← Rd.resC rdPacket
   let ids ← Rd.list Rd.u8
-  let gets ← Rd.list Rd.obytes
+  let gets ← Rd.list (do let v ← Rd.obytes; pure (canonV v))    -- nil and empty identified
   let ud ← Rd.resC rdPacket
   pure { un := un, hn := hn, re := re, reUn := ru, ids := ids, gets := gets, unDirty := ud }
 
@@ -71,18 +245,26 @@ def c03wire : Handler :=
         | some w' => if w'.toPacket != w.toPacket then Rd.fail else pure (w, b, qs, prev)
         | none => if w.WF then Rd.fail else pure (w, b, qs, prev))
     rdObs
-    (fun (_, b, qs, prev) => Pred.C03.modelObs b qs prev)
-    (fun (w, b, qs, _) o => Pred.C03.wire w b qs o)
+    (fun (_, b, qs, prev) => Relax.canonObs (Pred.C03.modelObs b qs prev))
+    (fun (w, b, qs, _) o => Relax.wireR w b qs o)
     (fun (w, _, _, _) => Pred.C03.wireWF w)
     (fun (w, _, _, _) _ =>
       if Pred.C03.reservedRegion w then some "c03_reserved_id"
       else if Pred.C03.appbitsRegion w then some "c03_twobyte_appbits" else none)
 
+/-- where `mutOKR` is binding = the hypothesis of `c03_mut_pred`: every byte string except the images
+    of descriptions inside a known-finding region.  Sentence (2) is about "any input that Unmarshal
+    accepts", so a string that is NOT the image of a well-formed description is inside the quantifier
+    too (`mutOKR` is `remarshalOKR` there, which demands nothing of a rejected input);
+    `Pred.C03.mutWF` alone is false there, which would leave sentence (2) unenforced on all accepted
+    mutations that left the grammar. -/
+def mutQuantified (buf : Bytes) : Bool := Pred.C03.mutWF buf || (Wire.describe buf).isNone
+
 /-- `c03.mut` -/
 def c03mut : Handler :=
   mkHandler (do let b ← Rd.bytes; let qs ← Rd.list Rd.u8; let prev ← Rd.bytes; pure (b, qs, prev)) rdObs
-    (fun (b, qs, prev) => Pred.C03.modelObs b qs prev) (fun (b, qs, _) o => Pred.C03.mutOK b qs o)
-    (fun (b, _, _) => Pred.C03.mutWF b) (fun (b, _, _) _ => Pred.C03.mutRegion b)
+    (fun (b, qs, prev) => Relax.canonObs (Pred.C03.modelObs b qs prev)) (fun (b, qs, _) o => Relax.mutOKR b qs o)
+    (fun (b, _, _) => mutQuantified b) (fun (b, _, _) _ => Pred.C03.mutRegion b)
 
 def rdViewKind : Rd ViewKind := do
   let t ← Rd.nat
@@ -106,7 +288,7 @@ def rdViewIn : Rd Pred.C03.ViewIn := do
 def rdViewObs : Rd Pred.C03.ViewObs := do
   let unm ← Rd.resC Rd.nat
   let ids ← Rd.resC (Rd.list Rd.u8)
-  let gets ← Rd.list (Rd.resC Rd.obytes)
+  let gets ← Rd.list (Rd.resC (do let v ← Rd.obytes; pure (canonV v)))    -- nil and empty identified
   let m ← Rd.resC Rd.bytes
   let sz ← Rd.resC Rd.nat
   let to ← Rd.list (Rd.resC (do let b ← Rd.bytes; let n ← Rd.nat; pure (b, n)))
@@ -114,7 +296,7 @@ def rdViewObs : Rd Pred.C03.ViewObs := do
 
 /-- `c03.view` -/
 def c03view : Handler :=
-  mkHandler rdViewIn rdViewObs Pred.C03.modelView Pred.C03.view Pred.C03.viewWF
+  mkHandler rdViewIn rdViewObs (fun i => Relax.canonViewObs (Pred.C03.modelView i)) Relax.viewR Pred.C03.viewWF
     (fun i _ => if Pred.C03.viewAppbitsRegion i then some "c03_twobyte_appbits" else none)
 
 def handlers : List (String × Handler) :=
